@@ -246,8 +246,18 @@ def run(ctx):
                 ctx.violation("property_fails", "get_neighbors_decoded of the derived inverted copy differs from the inverse action",
                               {"oracle": "neighbors_inverted_copy", "graph": gd, "config": cfgd, "states": sts}, True)
         path = [rng.randrange(k) for _ in range(rng.randint(0, 6))]
-        ap = G.flat_states(graph.apply_path(G.in_container(cont_, sts), path))
+        obj_ = G.in_container(cont_ if rng.random() < 0.5 else rng.choice(["torch.int64", "np.int64"]), sts)
+        ap = G.flat_states(graph.apply_path(obj_, path))
         want_p = [list(G.run_path(gd, s, path)) for s in sts]
+        # the states handed over belong to the caller: applying a path must not write into them (un-encoded graphs work on a view of the caller's memory),
+        # nor into the graph's own central state when that is what gets replayed
+        if G.flat_states(torch.as_tensor(obj_).reshape(len(sts), -1)) != sts:
+            ctx.violation("property_fails", "apply_path overwrote the states it was given", {"oracle": "path_input_clobbered", "graph": gd, "config": cfgd, "states": sts, "path": path}, True)
+        path2 = [rng.randrange(k) for _ in range(rng.randint(2, 5))]
+        ap_c = G.flat_states(graph.apply_path(graph.central_state, path2))
+        if ap_c != [list(G.run_path(gd, gd["central"], path2))] or G.flat_states(graph.central_state.reshape(1, -1)) != [list(gd["central"])]:
+            ctx.violation("property_fails", "apply_path from the graph's own central state gives a wrong state or rewrites the central state",
+                          {"oracle": "path_from_central", "graph": gd, "config": cfgd, "path": path2}, True)
         if ap != want_p:
             ctx.violation("property_fails", "apply_path is not the composition of the single actions",
                           {"oracle": "path", "graph": gd, "config": cfgd, "states": sts, "path": path}, True)
